@@ -32,7 +32,7 @@ import logging.config
 from typing import List
 
 import pathspec
-from confuse import Configuration
+from confuse import Configuration, ConfigTypeError
 from pkg_resources import get_distribution, DistributionNotFound
 
 from .config import config_template, dict_to_settings, Settings
@@ -127,6 +127,13 @@ def main(args: List[str] = tuple(sys.argv[1:])):
         config_template(output_dir_relative_to_config))
 
     settings_obj = dict_to_settings(settings_dict)
+
+    # A bare string is iterable as well, but iterating it would silently turn
+    # "build/" into the one-character patterns "b", "u", "i", "l", "d", "/"
+    for filters, _ in settings["input"]["exclude_filters"].resolve():
+        if isinstance(filters, (str, bytes)):
+            raise ConfigTypeError(
+                f"input.exclude_filters: must be a list of patterns, not {type(filters).__name__}")
 
     # Concatenate all exclude filters rather than overriding the entire list
     settings_obj.input.exclude_filters = list(
